@@ -9,7 +9,7 @@ use crate::monitor::guard::{self, Flush};
 use crate::props::evalutil::*;
 use crate::util::{Rng, Stats, Tier, guarded, same_bits};
 use crate::{Mode, Prop};
-use fidget_core::eval::{BulkEvaluator, Function, Tape, TracingEvaluator};
+use fidget_core::eval::{BulkEvaluator, Tape, TracingEvaluator};
 use fidget_core::render::RenderHandle;
 use fidget_core::shape::Shape;
 use fidget_core::types::{Grad, Interval};
